@@ -147,7 +147,7 @@ class n0dict__(dict):
         return new_value  # For speed
     # **************************************************************************
     def delete(self, xpath: str, recursively: bool = False) -> n0dict__:
-        xpath_list = xpath.split('/')
+        xpath_list = [itm.strip() for itm in xpath.replace("][","]/[").split('/') if itm]
         for i, last_xpath_index in enumerate(range(len(xpath_list), 0, -1)):
             parent_node, node_name_index, cur_value, _xpath_found_str, _not_found_xpath_list = \
                 self._find(xpath_list[0:last_xpath_index], self, return_lists=True)
